@@ -29,7 +29,7 @@
    w_dup (F25) || w_zombie (F38).  Clauses (1), (3), (4) alone need only w_commit || w_sdlag (C02_core). *)
 From Coq Require Import List ZArith NArith Bool.
 From PC.Base Require Import Assoc.
-From PC.Sup Require Import Model Monitors LemC02 RelC02t RelC02e.
+From PC.Sup Require Import Model Monitors LemC02 RelC02defs RelC02e.
 
 Theorem C02_restart_policy : forall cs ord evs s,
   accept (init cs ord) evs = Some s -> W_C02 (final_obs cs evs) = false -> holds_C02 cs evs = true.
